@@ -324,11 +324,73 @@ func (r *runner) run() {
 	r.closeWAL()
 }
 
+// runConc: the production fs.FS used by two goroutines at once, as the WAL does (the writer commits into a fresh tail -
+// its first Sync also fsyncs the directory - while a reader that drops the last reference of an old state deletes
+// segment files). Every call is bracketed by its own markers (cinv / cack); spec/FsConcTrace.tla judges the syscalls.
+func runConc(dir string, iters int) {
+	vfs := walfs.New()
+	d := filepath.Join(dir, "w0")
+	if err := os.MkdirAll(d, 0755); err != nil {
+		fmt.Fprintln(os.Stderr, err)
+		os.Exit(2)
+	}
+	seg := func(base, id int) string { return fmt.Sprintf("%020d-%016x.wal", base, id) }
+	marker("reset/0/4096")
+	for j := 0; j < iters; j++ { // files to delete, durable before the race starts
+		f, err := vfs.Create(d, seg(1000+j, j), 4096)
+		if err != nil {
+			fmt.Fprintln(os.Stderr, err)
+			os.Exit(2)
+		}
+		f.WriteAt([]byte{1, 2, 3, 4, 5, 6, 7, 8}, 0)
+		f.Sync()
+		f.Close()
+	}
+	done := make(chan struct{}, 2)
+	go func() {
+		for i := 0; i < iters; i++ {
+			name := seg(5000+i, 5000+i)
+			marker("cinv/sync/%s", name)
+			f, err := vfs.Create(d, name, 4096)
+			if err == nil {
+				_, err = f.WriteAt([]byte{9, 9, 9, 9, 9, 9, 9, 9}, 0)
+				if err == nil {
+					err = f.Sync()
+				}
+			}
+			marker("cack/sync/%s/%s", name, res(err))
+			if f != nil {
+				f.Close()
+			}
+		}
+		done <- struct{}{}
+	}()
+	go func() {
+		for j := 0; j < iters; j++ {
+			name := seg(1000+j, j)
+			marker("cinv/delete/%s", name)
+			err := vfs.Delete(d, name)
+			marker("cack/delete/%s/%s", name, res(err))
+		}
+		done <- struct{}{}
+	}()
+	<-done
+	<-done
+	marker("end/0")
+	fmt.Printf("{\"ncalls\": %d}\n", 2*iters)
+}
+
 func main() {
+	conc := flag.Int("conc", 0, "run the concurrent fs.FS workload with this many iterations per goroutine instead of scenarios")
 	scenPath := flag.String("scen", "", "ndjson file of scenarios")
 	dir := flag.String("dir", "", "scratch directory (one sub directory per scenario)")
 	summary := flag.String("summary", "", "summary output (json)")
 	flag.Parse()
+	if *conc > 0 {
+		dirFlag := flag.Lookup("dir")
+		runConc(dirFlag.Value.String(), *conc)
+		return
+	}
 	f, err := os.Open(*scenPath)
 	if err != nil {
 		fmt.Fprintln(os.Stderr, "fstrace:", err)
